@@ -57,6 +57,9 @@ type c16Case struct {
 	Kind     string   `json:"content"` // zeros | noise | pattern | literal | bomb
 	Size     int      `json:"size"`
 	Literal  []byte   `json:"literal,omitempty"`
+	// Chunked: the client hands over a reader of unknown length, so the request is sent with chunked transfer encoding and
+	// the server sees ContentLength == -1
+	Chunked bool `json:"unknown_length,omitempty"`
 }
 
 var c16Default = []string{"", "gzip", "zstd", "zlib", "snappy", "deflate", "lz4"} // documented default of compression_algorithms
@@ -155,7 +158,13 @@ func c16Run(e *c16Env, c c16Case) (string, string) {
 	if strings.HasPrefix(c.Kind, "bomb") {
 		in = make([]byte, c.Size)
 	}
-	desc := fmt.Sprintf("alg=%q level=%d enabled=%s limit=%d content=%s size=%d", c.Alg, c.Level, c.EnabledN, c.Limit, c.Kind, len(in))
+	desc := fmt.Sprintf("alg=%q level=%d enabled=%s limit=%d content=%s size=%d unknown-length=%v", c.Alg, c.Level, c.EnabledN, c.Limit, c.Kind, len(in), c.Chunked)
+	body := func() io.Reader {
+		if c.Chunked {
+			return struct{ io.Reader }{bytes.NewReader(in)}
+		}
+		return bytes.NewReader(in)
+	}
 	list := c.Enabled
 	if list == nil {
 		list = c16Default
@@ -180,10 +189,10 @@ func c16Run(e *c16Env, c c16Case) (string, string) {
 		if cerr != nil {
 			return "", "" // level not accepted by validation for this algorithm: outside the quantifier
 		}
-		if r2, err2 := cl.Post(e.raw.URL, "application/octet-stream", bytes.NewReader(in)); err2 == nil {
+		if r2, err2 := cl.Post(e.raw.URL, "application/octet-stream", body()); err2 == nil {
 			r2.Body.Close()
 		}
-		resp, err = cl.Post(e.ts.URL, "application/octet-stream", bytes.NewReader(in))
+		resp, err = cl.Post(e.ts.URL, "application/octet-stream", body())
 	}
 	if err != nil {
 		return "client-error", desc + ": " + err.Error()
@@ -271,7 +280,7 @@ func TestVerif(t *testing.T) {
 				c.Limit, c.Enabled, c.EnabledN = limit, enl.l, enl.name
 				ctx.R.Evals++
 				ctx.R.Trans++
-				ctx.Nontrivial(vr.Hash(c.Alg, c.Level, c.Limit, c.EnabledN, c.Kind, c.Size, string(c.Literal)))
+				ctx.Nontrivial(vr.Hash(c.Alg, c.Level, c.Limit, c.EnabledN, c.Kind, c.Size, string(c.Literal), c.Chunked))
 				sig, what := c16Run(e, c)
 				if sig != "" {
 					ctx.Violate(sig+":"+c.Alg, what, c)
@@ -299,6 +308,9 @@ func TestVerif(t *testing.T) {
 								continue
 							}
 							run(c16Case{Alg: alg, Level: lv, Kind: kind, Size: sz})
+							if lv == 0 && kind == "noise" {
+								run(c16Case{Alg: alg, Level: lv, Kind: kind, Size: sz, Chunked: true})
+							}
 						}
 					}
 					if lv == 0 {
